@@ -49,18 +49,18 @@ type bufOp struct {
 }
 
 type bufCons struct {
-	id         int
-	c          bigbuff.Consumer
-	auditor    bool
-	shared     bool
-	newInv     int64
-	newRet     int64
-	ops        []*bufOp
-	closeInv   int64 // 0 = never closed by the harness
-	closeRet   int64
-	stopped    bool // stopped after an eviction error
-	users      int
-	usersDone  int
+	id        int
+	c         bigbuff.Consumer
+	auditor   bool
+	shared    bool
+	newInv    int64
+	newRet    int64
+	ops       []*bufOp
+	closeInv  int64 // 0 = never closed by the harness
+	closeRet  int64
+	stopped   bool // stopped after an eviction error
+	users     int
+	usersDone int
 }
 
 type cleanerCall struct {
